@@ -27,35 +27,37 @@ OUTSIDE = ["more than 4 modelled processes", "real OS scheduling inside a single
 
 
 class Recorder:
-    """file layer for one run: records operations on the shared config path and delegates to real files"""
+    """file layer for one run: records operations on the shared config path and delegates to real files; under a gate
+    every operation on the shared file is performed while holding the turn (so operations are atomic and ordered)"""
     def __init__(self, cfg, gate=None, pid=0):
         self.cfg, self.events, self.gate, self.pid = cfg, [], gate, pid
 
-    def step(self, kind):
+    def _do(self, kind, shared, fn):
+        if not shared:
+            return fn()
         self.events.append(kind)
         if self.gate:
             self.gate.wait_turn(self.pid, kind)
+        try:
+            return fn()
+        finally:
+            if self.gate:
+                self.gate.release()
 
     def exists(self, p):
-        if p == self.cfg:
-            self.step("exists")
-        return os.path.exists(p)
+        return self._do("exists", p == self.cfg, lambda: os.path.exists(p))
 
     def open(self, p, mode="r"):
-        if p == self.cfg:
-            self.step("wopen" if "w" in mode else "ropen")
-        return open(p, mode)
+        return self._do("wopen" if "w" in mode else "ropen", p == self.cfg, lambda: open(p, mode))
 
     def load(self, f):
-        if f.name == self.cfg:
-            self.step("load")
-        return json.load(f)
+        return self._do("load", f.name == self.cfg, lambda: json.load(f))
 
     def dump(self, obj, f):
-        if f.name == self.cfg:
-            self.step("dump")
-        json.dump(obj, f)
-        f.flush()
+        def w():
+            json.dump(obj, f)
+            f.flush()
+        return self._do("dump", f.name == self.cfg, w)
 
 
 class OsProxy:
@@ -215,10 +217,12 @@ def find_bad_schedule(traces, exists0, timeout_ms=60000):
 
 
 class Gate:
-    """steps real threads in the order given by a schedule (one shared-file operation per turn)"""
+    """steps real threads in the order given by a schedule: one shared-file operation per turn, the turn is held until
+    the operation has completed"""
     def __init__(self, schedule):
         self.schedule = list(schedule)
         self.pos = 0
+        self.busy = False
         self.cv = threading.Condition()
         self.done = set()
 
@@ -227,10 +231,15 @@ class Gate:
             while True:
                 while self.pos < len(self.schedule) and self.schedule[self.pos] in self.done:
                     self.pos += 1
-                if self.pos >= len(self.schedule) or self.schedule[self.pos] == pid:
+                if not self.busy and (self.pos >= len(self.schedule) or self.schedule[self.pos] == pid):
                     break
-                self.cv.wait(timeout=5)
+                self.cv.wait(timeout=2)
+            self.busy = True
             self.pos += 1
+
+    def release(self):
+        with self.cv:
+            self.busy = False
             self.cv.notify_all()
 
     def finish(self, pid):
